@@ -56,4 +56,29 @@ theorem stepFn_sound {n : Nat} {s s' : State} {w : Nat} {a : Act}
     case h_15 c hpc => cases h; exact .exit hw hpc
     case h_16 => cases h
 
+def demoRoots : List Tree := [.node 0 [.node 1 [], .node 2 [.node 3 []]]]
+
+def demoSched : List (Nat × Act) :=
+  [ (1, .go), (1, .stealFail), (1, .go), (1, .go), (1, .go),          -- worker 1 finds nothing, deactivates
+    (0, .go), (0, .go), (0, .visitCont), (0, .go), (0, .go), (0, .go), -- worker 0 visits 0, sends 1 and 2
+    (1, .go), (1, .stealOk 1),                                         -- idle worker 1 steals entry 1
+    (0, .go), (0, .go), (0, .visitCont), (0, .go), (0, .go),           -- worker 0 visits 2, sends 3
+    (0, .go), (0, .go), (0, .visitCont), (0, .go),                     -- worker 0 visits 3
+    (0, .go), (0, .stealFail), (0, .go), (0, .go), (0, .go),           -- worker 0 finds nothing: counter hits 0
+    (0, .go), (0, .go),                                                -- ... pushes Quit and exits
+    (1, .go), (1, .go), (1, .visitCont), (1, .go),                     -- worker 1 activates, visits 1
+    (1, .go), (1, .stealOk 1), (1, .go), (1, .go), (1, .go) ]          -- steals the Quit, re-sends it, exits
+
+theorem runActs_reachable {n : Nat} {roots : List Tree} (acts : List (Nat × Act)) {s s' : State}
+    (hr : Reachable n roots s) (h : runActs n acts s = some s') : Reachable n roots s' := by
+  induction acts generalizing s with
+  | nil => simp only [runActs] at h; cases h; exact hr
+  | cons a acts ih =>
+    obtain ⟨w, a⟩ := a
+    simp only [runActs] at h
+    split at h
+    · rename_i s1 hs1
+      exact ih (.step hr (stepFn_sound hs1)) h
+    · cases h
+
 end RgVerif.ParWalk
